@@ -64,7 +64,7 @@ mod verif_c16_counters {
         kani::cover!(true, "reach_end");
     }
 
-    //@ob id=C16.update_count.3 flags=noassert props=C16 tier=quick kind=harness fns=counters.rs:AppCounters::update_count bounded=3-existing-counters
+    //@ob id=C16.update_count.3 flags=noassert props=C16,C01 tier=quick kind=harness fns=counters.rs:AppCounters::update_count bounded=3-existing-counters
     //@region update_count on 3 existing counters (symbolic DFs and values) x any df: that DF's counter +1 (1 on first occurrence), all others unchanged, ascending order kept
     #[kani::proof]
     #[kani::unwind(8)]
@@ -72,7 +72,7 @@ mod verif_c16_counters {
         check::<3>();
     }
 
-    //@ob id=C16.update_count.0 flags=noassert props=C16 tier=quick kind=harness fns=counters.rs:AppCounters::update_count bounded=no-existing-counter
+    //@ob id=C16.update_count.0 flags=noassert props=C16,C01 tier=quick kind=harness fns=counters.rs:AppCounters::update_count bounded=no-existing-counter
     //@region update_count on the empty counter set: first frame counts 1
     #[kani::proof]
     #[kani::unwind(8)]
